@@ -96,6 +96,7 @@ type Rsoa struct {
 	ns  []byte // the primary name server
 	adm []byte // the contact address (with the first . converted to @)
 	ser uint32 // the serial number	(default: mtime of data file)
+	sok bool   // the serial number was given explicitly (an explicit 0 is not "use the default")
 	ref uint32 // the refresh time (default: 16384)
 	ret uint32 // the retry time (default: 2048)
 	exp uint32 // the expire time (default: 1048576)
@@ -764,7 +765,9 @@ func (r *Rsoa) UnmarshalText(text []byte) error {
 	r.dom, _ = quote.Bunquote(f[0]) // BUG: handle error
 	r.ns, _ = quote.Bunquote(f[1])  // BUG: handle error
 	r.adm, _ = quote.Bunquote(f[2]) // BUG: handle error
-	getuint32(f[3], &r.ser)
+	if x, err := strconv.ParseUint(string(f[3]), 10, 32); err == nil {
+		r.ser, r.sok = uint32(x), true
+	}
 	getuint32(f[4], &r.ref)
 	getuint32(f[5], &r.ret)
 	getuint32(f[6], &r.exp)
